@@ -811,6 +811,13 @@ where
 	let context = w.get_private_context(keychain_mask, slate.id.as_bytes())?;
 	let mut excess_override = None;
 
+	// A late-locked send has selected nothing yet: its inputs are selected and reserved (and its
+	// log entry written) by `finalize_tx`. There is nothing to lock now, and recording an empty
+	// entry here would make that later reservation look like a repeat.
+	if context.late_lock_args.is_some() {
+		return Ok(());
+	}
+
 	// Don't do this multiple times
 	let tx = updater::retrieve_txs(
 		&mut *w,
